@@ -18,7 +18,7 @@ NOTES = {
     'C02_4': 'round 2; missed at first (subscriptions were never written in the short forms); the harness now renders "b>" / ">m" and C02 gained RemapMain - caught since',
     'C03_3': 'round 2; missed at first (no process() ever returned an empty dict); C03 gained Chain3Empty - caught since',
     'C03_4': 'round 2; missed at first (the publisher always existed before its consumers and SUB links were established promptly); C03 gained the late publisher with a slow SUB connection - caught since',
-    'C04_3': 'round 2; NOT caught: needs blocking sends (timeout=None) with two consumers and one send() blocked longer than the connection timeout; the harness drives Filter.loop_once (100 ms slices) only, where the change has no effect',
+    'C04_3': 'round 2; missed at first (the harness drove Filter.loop_once only, where the change has no effect); the specification gained Blocking filters (MQ applications calling recv()/send() with timeout = None: no STimeout, RTimeout stays inside recv, SBlockTick = time passing in poll(None)), the ghost C04_NoEarlyEvict and the design mutation stale_t; SimPipeline runs such applications on the real MQ; the TLC counterexample of stale_t is replayed on the real sender with its time-out evictions observed - caught since',
     'C04_4': 'round 2; missed at first (no non-balanced publisher bound to two addresses); C04 gained the TwoAddr stall scenario - caught since',
     'C05_3': 'round 2; missed at first; C05 gained the eph-first differential with a slow mixed consumer and a long stream (restricted to what each consumer gets from its synchronized sources) - caught since',
     'C05_4': 'round 2; missed at first (in the late-listener differential every other worker was faster than the listener, so the stream was over before the listener attached); C05 gained Balance2EphSlow2 (both workers slower than the listener), C04 the balanced-listener stall scenario, and the specification the design mutation bal_eph_reenables whose TLC counterexample is replayed by C04 - caught since',
